@@ -86,7 +86,12 @@ def zone_job(a):
 
     # the Python-side data: either the tables as decoded by the C++ brokers (shipped database) or the in-memory tables the
     # compiler produced from the same source as the C++ tables under test (freshly compiled source)
-    info = a.get("info") or to_python_info(z)
+    try:
+        info = a.get("info") or to_python_info(z)
+    except KeyError as e_:
+        # the brokers returned a value outside the encoding's alphabet (e.g. a suffix byte that is none of w/s/u)
+        fail("decode", {"where": "tables as decoded by the C++ brokers", "value": str(e_)})
+        return res
     T0, T1 = a.get("t0", sweeplib.T0), a.get("t1", sweeplib.T1)
     Y0 = (EPOCH_DT + dtm.timedelta(seconds=T0)).year
     Y1 = (EPOCH_DT + dtm.timedelta(seconds=T1 - 1)).year + 1
